@@ -14,7 +14,7 @@
 (* The chart action is written operationally (ChartFold: read the lines in  *)
 (* order and group them); the properties compare it with the declarative    *)
 (* ChartOf, which is a function of the set of reports only.                 *)
-EXTENDS WorkerChart, TLC
+EXTENDS WorkerChart
 
 CONSTANTS NDays,      \* days are 1..NDays, consecutive calendar days
           Objs,       \* object names available under one day
@@ -24,6 +24,9 @@ CONSTANTS NDays,      \* days are 1..NDays, consecutive calendar days
           MaxSteps    \* bound on merge/chart requests in a behaviour
 
 ASSUME WellFormed(Charts)
+(* sorting the keys by rank, from whatever order they come in, gives the    *)
+(* declaratively specified listing: the order is total                      *)
+ASSUME SortedOrder(Charts) = ListingOrder(Charts)
 
 Days == 1..NDays
 Ranges == {r \in Days \X Days : r[1] <= r[2]}
@@ -31,8 +34,9 @@ PoolIx == 1..Len(Pool)
 NoMerge == [ok |-> FALSE, lines |-> <<>>]
 NoChart == [num |-> -1, val |-> [t \in Triples(Charts) |-> 0]]
 
-VARIABLES up, mg, ch, resp, out, last, nUp, nSteps
-vars == <<up, mg, ch, resp, out, last, nUp, nSteps>>
+VARIABLES up, mg, ch, resp, out, last, nUp, nSteps,
+          listing    \* the order in which every chart object lists its data points (never changes)
+vars == <<up, mg, ch, resp, out, last, nUp, nSteps, listing>>
 
 Init == /\ up = [d \in Days |-> [o \in Objs |-> 0]]
         /\ mg = [d \in Days |-> NoMerge]
@@ -41,6 +45,7 @@ Init == /\ up = [d \in Days |-> [o \in Objs |-> 0]]
         /\ out = NoChart
         /\ last = [op |-> "init", a |-> 0, b |-> 0, c |-> 0]
         /\ nUp = 0 /\ nSteps = 0
+        /\ listing = ListingOrder(Charts)
 
 (* the upload server stores a report under <day>/<name>; storing again under *)
 (* the same name replaces the object                                         *)
@@ -51,7 +56,7 @@ Upload(d, o, i) ==
     /\ last' = [op |-> "upload", a |-> d, b |-> o, c |-> i]
     /\ resp' = [code |-> 200, n |-> 0]
     /\ out' = NoChart
-    /\ UNCHANGED <<mg, ch, nSteps>>
+    /\ UNCHANGED <<mg, ch, nSteps, listing>>
 
 Stored(d) == {o \in Objs : up[d][o] # 0}
 Orders(S) == {f \in [1..Cardinality(S) -> S] : \A i, j \in 1..Cardinality(S) : i # j => f[i] # f[j]}
@@ -65,7 +70,7 @@ Merge(d) ==
     /\ out' = NoChart
     /\ last' = [op |-> "merge", a |-> d, b |-> 0, c |-> 0]
     /\ nSteps' = nSteps + 1
-    /\ UNCHANGED <<up, ch, nUp>>
+    /\ UNCHANGED <<up, ch, nUp, listing>>
 
 RECURSIVE Cat(_, _)
 Cat(s, e) == IF s > e THEN <<>> ELSE mg[s].lines \o Cat(s + 1, e)
@@ -84,7 +89,7 @@ Chart(s, e) ==
             /\ resp' = [code |-> 200, n |-> Len(Cat(s, e))]
     /\ last' = [op |-> "chart", a |-> s, b |-> e, c |-> 0]
     /\ nSteps' = nSteps + 1
-    /\ UNCHANGED <<up, mg, nUp>>
+    /\ UNCHANGED <<up, mg, nUp, listing>>
 
 Next == \/ \E d \in Days, o \in Objs, i \in PoolIx : Upload(d, o, i)
         \/ \E d \in Days : Merge(d)
